@@ -655,6 +655,87 @@ func sortStrings(s []string) {
 	}
 }
 
+// ---- unclean (but absolute) mount destinations: inside the domain -------------------------
+
+// uncleanOf writes a cleaned absolute destination in a form filepath.Clean would change.
+func uncleanOf(r *rand.Rand, d string) string {
+	if d == "/" {
+		return pick(r, []string{"//", "/.", "/./", "/x/.."})
+	}
+	switch r.Intn(6) {
+	case 0:
+		return d + "/" // the realistic one: a volume mountPath "/data/"
+	case 1:
+		return "/" + d
+	case 2:
+		return d + "/."
+	case 3:
+		return "/." + d
+	case 4:
+		return "/zz/.." + d
+	default:
+		return d + "//"
+	}
+}
+
+// uncleanCase: a random case in which some original mounts and some mounts of the adjustment are
+// written uncleanly (trailing slash, doubled slash, dot components). Destinations stay distinct
+// as strings, so the case is inside the property's domain: everything is judged, and "parents
+// first" is demanded of every CLEANED parent, whatever its children look like.
+func uncleanCase(r *rand.Rand) In {
+	s := genSpec(r)
+	a := genAdj(r, adjOpts{pFamily: 0.3, setRemove: true, mnt: nil})
+	seen := map[string]bool{}
+	for _, m := range s.Mounts {
+		seen[m.Destination] = true
+	}
+	fresh := func(d string) (string, bool) {
+		for t := 0; t < 8; t++ {
+			u := uncleanOf(r, d)
+			if !seen[u] {
+				seen[u] = true
+				return u, true
+			}
+		}
+		return "", false
+	}
+	// rewrite or add original mounts
+	for i := range s.Mounts {
+		if r.Intn(3) == 0 {
+			if u, ok := fresh(s.Mounts[i].Destination); ok {
+				delete(seen, s.Mounts[i].Destination)
+				s.Mounts[i].Destination = u
+			}
+		}
+	}
+	for n := r.Intn(3); n > 0; n-- {
+		if u, ok := fresh(pick(r, mntDests)); ok {
+			s.Mounts = append(s.Mounts, genMount(r, u))
+		}
+	}
+	if len(s.Mounts) > 9 {
+		s.Mounts = s.Mounts[:9]
+	}
+	// the adjustment: sets of unclean destinations, removals of unclean originals, and always at
+	// least one mount so that the list is re-sorted
+	for n := 1 + r.Intn(3); n > 0; n-- {
+		switch r.Intn(4) {
+		case 0:
+			if len(s.Mounts) > 0 {
+				a.Mounts = append(a.Mounts, MountJ{Destination: "-" + s.Mounts[r.Intn(len(s.Mounts))].Destination, Options: []string{}})
+				break
+			}
+			fallthrough
+		case 1:
+			a.Mounts = append(a.Mounts, genMount(r, pick(r, mntDests)))
+		default:
+			a.Mounts = append(a.Mounts, genMount(r, uncleanOf(r, pick(r, mntDests))))
+		}
+	}
+	r.Shuffle(len(a.Mounts), func(i, j int) { a.Mounts[i], a.Mounts[j] = a.Mounts[j], a.Mounts[i] })
+	return In{Kind: "unclean", Spec: s, Adjust: a, Ext: defaultExt(), Runs: 10}
+}
+
 // ---- inputs outside the stated domain -----------------------------------------------------
 
 func excluded(r *rand.Rand, i int) In {
@@ -669,7 +750,8 @@ func excluded(r *rand.Rand, i int) In {
 		}
 	case 1: // adjustment env keys with '=' or empty
 		a.Env = append(a.Env, KVJ{pick(r, []string{"", "A=B", "-", "-A=B", "=x"}), "val"})
-	case 2: // mount destinations that are not cleaned absolute paths
+	case 2: // mount destinations that are not cleaned, some not even absolute (judged like any other case
+		// since the review: only a PARENT has to be a cleaned path for "parents first")
 		bad := []string{"//", "/%", "/a/", "a/b", "/a/../b", "", "/a//b", "/./a", ".."}
 		s.Mounts = append(s.Mounts, genMount(r, pick(r, bad)))
 		a.Mounts = append(a.Mounts, genMount(r, pick(r, bad)))
@@ -696,7 +778,7 @@ func excluded(r *rand.Rand, i int) In {
 		}
 	case 5: // bare UpdateArgs marker
 		a.Args = []string{""}
-	case 6: // the pathological pair of DESIGN §6 #11
+	case 6: // the pathological pair of DESIGN §6 #11 (in the domain; its unclean parent "//" is exempt)
 		s.Mounts = []MountJ{genMount(r, "/%"), genMount(r, "//")}
 		a.Mounts = []MountJ{genMount(r, "/zz")}
 	case 7: // keys that themselves start with the marker
